@@ -1,5 +1,6 @@
 /* Accessors for TPM 2 internals that are not API-visible (DESIGN.md 3.2): compiled with the repo's own headers.
  * Only data is read/written; each use is traced by the harness. */
+#define NV_C
 #include "Tpm.h"
 #include <stdint.h>
 uint64_t verif_get_contextCounter(void) { return gr.contextCounter; }
@@ -12,3 +13,12 @@ uint32_t verif_get_maxTries(void) { return gp.maxTries; }
 int verif_get_lockOutAuthEnabled(void) { return gp.lockOutAuthEnabled; }
 uint16_t verif_get_orderlyState(void) { return gp.orderlyState; }
 int verif_get_daUsed(void) { return g_daUsed; }
+/* C09: bytes used by the dynamic NV list (walk of the entry sizes, as NvGetEnd does) */
+uint32_t verif_nv_used(void) {
+    uint32_t addr = NV_USER_DYNAMIC, sz = 0; int guard = 0;
+    for (;;) { NvRead(&sz, addr, sizeof sz); if (sz == 0 || addr + sz > NV_MEMORY_SIZE || ++guard > 100000) break; addr += sz; }
+    return addr - NV_USER_DYNAMIC;
+}
+uint64_t verif_nv_maxcount(void) { return NvReadMaxCount(); }
+/* a power cycle starts a new process: library statics that are not re-read from storage start from zero */
+void verif_new_process_statics(void) { s_maxCounter = 0; }
